@@ -4,6 +4,7 @@ import (
 	"encoding/json"
 	"fmt"
 	"os"
+	"strings"
 
 	"verifmc/hx"
 )
@@ -39,7 +40,7 @@ func replayFile(path string) int {
 	}
 	fmt.Printf("replaying property=%s case=%s (recorded: %s: %s)\n", f.Property, f.CaseID, f.Kind, f.Detail)
 	v := fn(f.Replay)
-	if v == nil {
+	if v == nil || strings.HasPrefix(v.Kind, "ok") {
 		fmt.Println("REPLAY: case passes on the current tree")
 		return 0
 	}
